@@ -36,6 +36,7 @@ const (
 	ErrorDuplicateParameter                   = 10503
 	ErrorSubqueryTooManyRecords               = 10601
 	ErrorSubqueryTooManyFields                = 10602
+	ErrorSubqueryNoFields                     = 10603
 	ErrorJsonQueryTooManyRecords              = 10701
 	ErrorLoadJson                             = 10702
 	ErrorEmptyJsonQuery                       = 10703 // Not in use after v1.14.0
